@@ -131,7 +131,8 @@ func compareExtensions(prefix string, dec *decoded, want []core.Extension, ctx e
 // extWorld: a self-signed "ca" and optionally a "leaf" below it, each with an
 // extension list and optionally a profile.
 type extCase struct {
-	W World
+	W        World
+	Siblings bool `json:",omitempty"`
 }
 
 // runExtWorld runs the world and checks every entity's extensions. It returns
@@ -346,6 +347,12 @@ func genExtCase(t *rapid.T, kinds []string, maxN, maxRaw int, profiles bool) ext
 			p.Extensions = genProfileExts(t, fmt.Sprintf("pext%d-", i), c.W.Ents[i].Extensions, kinds, rapid.IntRange(0, 3).Draw(t, fmt.Sprintf("undef%d", i)) == 0)
 			c.W.Profs = append(c.W.Profs, p)
 			c.W.Ents[i].Profile = name
+			if rapid.IntRange(0, 3).Draw(t, fmt.Sprintf("decoy%d", i)) == 0 {
+				// an unrelated profile that lives in a file named like this profile (profiles are known by their name key, not by their file)
+				decoy := core.Profile{File: rapid.SampledFrom([]string{"a-first/", "profiles/", "zz-last/"}).Draw(t, fmt.Sprintf("decoydir%d", i)) + name + rapid.SampledFrom([]string{".yaml", ".yml", ".json"}).Draw(t, fmt.Sprintf("decoyext%d", i)),
+					Name: name + "-legacy", Extensions: []core.Extension{{Kind: core.KCUSTOM, OID: "1.2.3.99", Raw: core.Bin([]byte{4, 1, 0x99}), Critical: core.BoolP(true)}}}
+				c.W.Profs = append(c.W.Profs, decoy)
+			}
 		}
 	}
 	return c
